@@ -100,6 +100,32 @@ pub fn dedup_case_strategy() -> BoxedStrategy<DedupCase> {
     (prop_oneof![3 => flat, 5 => typed, 2 => random], any::<u16>(), any::<u8>()).prop_map(|((placement, items), fault_sel, fault_kind)| DedupCase { items, placement, fault_sel, fault_kind }).boxed()
 }
 
+fn big_table_strategy() -> BoxedStrategy<DedupCase> {
+    let many = (prop_oneof![4 => 60usize..70, 1 => 8188usize..8198], proptest::collection::vec(0u8..5, 1..12), any::<bool>()).prop_map(|(n, tail, wrap)| {
+        let mut strings: Vec<String> = (0..n.saturating_sub(2)).map(|i| format!("s{i}")).collect();
+        strings.push(String::new());
+        strings.push("x".into());
+        for t in tail {
+            strings.push(match t {
+                0 => String::new(),
+                1 => "x".into(),
+                2 => "s0".into(),
+                3 => format!("s{}", n / 2),
+                _ => format!("s{}", n.saturating_sub(3)),
+            });
+        }
+        let items: Vec<(Ty, Val)> = if wrap { vec![(Ty::Vec(a(Ty::Dedup)), Val::Seq(strings.iter().map(|s| Val::str(s)).collect()))] } else { strings.iter().map(|s| (Ty::Dedup, Val::str(s))).collect() };
+        (format!("table of {n} strings, then repeats of the shortest ones"), items)
+    });
+    let long = (prop::sample::select(vec![40_000usize, 65_536, 70_000]), prop::sample::select(vec![40usize, 101, 130]), any::<bool>()).prop_map(|(l, k, two)| {
+        let s1 = "a".repeat(l);
+        let s2 = "b".repeat(l);
+        let items: Vec<(Ty, Val)> = vec![(Ty::Vec(a(Ty::Dedup)), Val::Seq((0..=k).map(|i| Val::str(if two && i % 2 == 1 { &s2 } else { &s1 })).collect()))];
+        (format!("a string of {l} bytes written {} times", k + 1), items)
+    });
+    (prop_oneof![5 => many, 1 => long], any::<u16>(), any::<u8>()).prop_map(|((placement, items), fault_sel, fault_kind)| DedupCase { items, placement, fault_sel, fault_kind }).boxed()
+}
+
 fn as_plain(t: &Ty) -> Ty {
     // the same shape with every DeduplicatedString replaced by String (flat items only need the leaf)
     match t {
@@ -256,6 +282,13 @@ pub fn run_c09(cx: &Cx) -> PropResult {
         }
         let strat = dedup_case_strategy();
         if drive(tag_seed(derive_seed(cx.seed, cx.prop, shard as u64, 0), 0), &strat, per_shard, acc, &|c: &DedupCase| to_json(c), &mut |c, a, r| check_c09(c, a, r)) {
+            return;
+        }
+        // tables that grow past the var-int boundaries of the ids (a back-reference to id 64 / 8192 takes one byte more,
+        // and may then be longer than the string it stands for), and long strings repeated often (what the repeats
+        // expand to is many times the input)
+        let strat = big_table_strategy();
+        if drive(tag_seed(derive_seed(cx.seed, cx.prop, shard as u64, 6), 6), &strat, cx.n(24, 400), acc, &|c: &DedupCase| to_json(c), &mut |c, a, r| check_c09(c, a, r)) {
             return;
         }
         // the string table next to the other per-stream table: graphs of tracked objects whose bodies carry one of four
